@@ -53,8 +53,13 @@ pub fn opt64(v: Option<u64>) -> Value {
         None => json!(["none"]),
     }
 }
+/// Names cross into the trace byte-exactly: printable ASCII names as they are, anything else as "hex:<bytes>".
 pub fn name_json(n: &[u8]) -> Value {
-    json!(String::from_utf8_lossy(n).to_string())
+    if n.iter().all(|b| (0x20..0x7f).contains(b) && *b != b'"' && *b != b'\\') && !n.starts_with(b"hex:") {
+        json!(String::from_utf8_lossy(n).to_string())
+    } else {
+        json!(format!("hex:{}", n.iter().map(|b| format!("{b:02x}")).collect::<String>()))
+    }
 }
 pub fn dur_json(d: &Duration) -> Value {
     json!({"s": d.as_secs().to_string(), "ns": d.subsec_nanos().to_string()})
